@@ -6,7 +6,9 @@ import (
 	"fmt"
 	"math/rand"
 	"os"
+	"runtime"
 	"strings"
+	"sync"
 
 	"verifharness/fw"
 )
@@ -14,12 +16,14 @@ import (
 const rule = "streams: (1) known-finding witnesses and corpus/C07; (2) every test of util/resolve/maven/testdata whose universe is " +
 	"single-registry, read at run time through verifx, every version of those universes as a root; (3) small-scope systematic: " +
 	"root r@1.0 with two declarations, a@1.0, a@3.0, b@1.0 with one declaration each, all drawn from a 15-entry menu (soft, ranges, " +
-	"tests classifier, war type, exclusions, test scope, cycle to the root, root management); quick samples it, thorough enumerates it; " +
+	"tests classifier, war type, exclusions, test scope, cycle to the root, root management); quick samples it, thorough enumerates " +
+	"all choices for r and a@1.0 with four choices each for a@3.0 and b@1.0 (65 536 universes); " +
 	"(4) random universes of 3..8 packages x 0..5 versions (soft versions biased to existing ones, ranges biased to satisfiable ones, " +
 	"dependencyManagement entries on every third version, exclusions incl. wildcards and lists, test/optional/provided/runtime scopes, " +
 	"duplicated declarations, diamonds and cycles by construction of the small name space); half of them without classifiers/types " +
 	"(the domain of M1_partial), one in five with malformed names / requirement strings / odd versions / reserved attributes; up to " +
-	"three roots per universe (all roots in thorough). A case is distinct by its op line; non-trivial = the real resolver returned a " +
+	"three roots per universe (all roots in thorough). Every eighth random universe also goes through op `defaultkeys` " +
+	"(harness classifier of F-C07-classifier = Lean hypothesis DefaultKeys). A case is distinct by its op line; non-trivial = the real resolver returned a " +
 	"graph with at least three nodes, counted by distinct result line."
 
 var shrunkInClass = map[string]int{}
@@ -28,12 +32,53 @@ var shrunkInClass = map[string]int{}
 // real resolver is not run twice on it (entries are consumed on first use).
 var resMemo = map[string]string{}
 
+type task struct {
+	u              *univ
+	rn, rv, stream string
+	line, res      string
+	bad            map[string]string
+}
+
+var pending []*task
+
+// runOne queues one (universe, root); flush executes the queue on all cores
+// (the real resolver and the oracles), then records the ops in queue order, so
+// that the op stream is a function of the seed alone.
 func runOne(c *fw.Ctx, u *univ, rn, rv, stream string) {
-	line := u.line(rn, rv)
-	// evaluate before recording, so that failures can be shrunk first
-	res := safeResolve(u, rn, rv)
+	pending = append(pending, &task{u: u, rn: rn, rv: rv, stream: stream})
+	if len(pending) >= 4096 {
+		flush(c)
+	}
+}
+
+func flush(c *fw.Ctx) {
+	var wg sync.WaitGroup
+	ch := make(chan *task)
+	for w := 0; w < runtime.NumCPU(); w++ {
+		wg.Add(1)
+		go func() {
+			defer wg.Done()
+			for t := range ch {
+				t.line = t.u.line(t.rn, t.rv)
+				t.res = safeResolve(t.u, t.rn, t.rv)
+				t.bad = evalOracles(t.line, t.res)
+			}
+		}()
+	}
+	for _, t := range pending {
+		ch <- t
+	}
+	close(ch)
+	wg.Wait()
+	for _, t := range pending {
+		record(c, t)
+	}
+	pending = pending[:0]
+}
+
+func record(c *fw.Ctx, t *task) {
+	u, rn, rv, stream, line, res, bad := t.u, t.rn, t.rv, t.stream, t.line, t.res, t.bad
 	resMemo[line] = res
-	bad := evalOracles(line, res)
 	c.Tally(int64(len(oracleNames) - len(bad)))
 	idx, res2 := c.Op(line)
 	if res2 != res {
@@ -120,25 +165,31 @@ func run(c *fw.Ctx) {
 			}
 		}
 	}
+	flush(c)
 	c.Count(fmt.Sprintf("testdata.tests=%d", len(cases)))
 
 	// (3) small scope
 	menu := smallMenu()
 	m := len(menu) + 1
-	total := m * m * m * m * m
 	if c.Thor {
-		for x := 0; x < total; x++ {
-			i, j, k, l, o := x%m, x/m%m, x/m/m%m, x/m/m/m%m, x/m/m/m/m%m
-			runOne(c, smallUniverse(menu, i, j, k, l, o), "g:r", "1.0", "small")
+		// all (i, j, k); l and o over four entries each (none, a range on a, a soft on b, the cycle to r)
+		lo := []int{len(menu), 2, 8, 13}
+		for x := 0; x < m*m*m; x++ {
+			i, j, k := x%m, x/m%m, x/m/m%m
+			for _, l := range lo {
+				for _, o := range lo {
+					runOne(c, smallUniverse(menu, i, j, k, l, o), "g:r", "1.0", "small")
+				}
+			}
 		}
 	} else {
-		for n := 0; n < 4000; n++ {
+		for n := 0; n < 5000; n++ {
 			runOne(c, smallUniverse(menu, r.Intn(m), r.Intn(m), r.Intn(m), r.Intn(m), r.Intn(m)), "g:r", "1.0", "small")
 		}
 	}
 
 	// (4) random
-	nu := c.N(2500, 40000)
+	nu := c.N(4000, 15000)
 	for it := 0; it < nu; it++ {
 		o := genOpts{keys: it%2 == 1, malformed: it%5 == 4, ranges: 0.12 + 0.2*r.Float64()}
 		u := genUniverse(r, o)
@@ -168,11 +219,18 @@ func run(c *fw.Ctx) {
 		if it < 3 {
 			c.Sample(u.line(roots[0].n, roots[0].v))
 		}
+		if it%8 == 0 {
+			// tie the known-finding classifier to the Lean hypothesis DefaultKeys
+			flush(c)
+			c.Op("C07 defaultkeys U=" + u.encU())
+			c.Count("classifier-tie.defaultkeys")
+		}
 		// a root that does not exist, now and then
 		if it%50 == 0 {
 			runOne(c, u, u.pkgs[0].name, "9.9", stream)
 		}
 	}
+	flush(c)
 }
 
 func main() {
